@@ -8,6 +8,9 @@ TECH = "solver-based symbolic execution of the real go/ssa (symgo) with SMT (z3)
 NOTE = "trusted: go/ssa, the symgo interpreter + environment models (store/codec/math-big as SMT Int), z3; bounds and stubs are listed in checks/<id>.json and repeated in the evidence file"
 
 CLAIMED = {
+ "C11": ("signed payload binding: EncodeSigning layout and injectivity in id/time/content/originator hash, CreateSigning ids never repeat, Direct/Tunnel originator layouts and separation, all nine 4-byte tags equal keccak256(name)[:4] and are pairwise distinct, internal content kinds are refused by RequestSignature, every handler prepends its tag and packs the on-chain values (reference schema written in the harness)", "DESIGN.md §5 C11, §8"),
+ "C12": ("relay proof construction: IAVL inner/leaf op parsing for every varint length, multistore proof positions against a reference RFC-6962 tree over the real store key list, encodeTime against the real gogoproto Timestamp marshalling", "DESIGN.md §5 C12, §8"),
+ "C18": ("group transition: TransitionGroup / ForceTransitionGroup, the tss callbacks (group creation completed/failed/expired, signing completed/failed/timeout), requests during a transition and the bandtss EndBlocker from an arbitrary transition state: the current group changes only in ExecuteGroupTransition at/after ExecTime from WAITING_EXECUTION, otherwise the transition is dropped; members mirror the incoming group; no reachable panic", "DESIGN.md §5 C18, §8"),
  "C13": ("service fees: oracle CollectFee/feeCollector.Collect over a 2-denom bank (accept iff every cumulative fee stays within limit and balance; exact ledgers; debit never above the limit), bandtss createSigningRequest (fee = fee_per_signer x threshold, escrow, free for authority / no group, fee reject before any transfer, incoming-group request rolled back on failure) and payouts in OnSigningCompleted/OnSigningFailed from an arbitrary escrow state", "DESIGN.md §5 C13, §8"),
  "C14": ("one AllocateTokens step of x/oracle and x/bandtss and the wrapped bank BurnCoins over symbolic fee pools, powers, percentages, community tax and activity flags: exact conservation per denom, inactive participants get nothing, remainders to proposer / community pool, no negative Sub (no panic)", "DESIGN.md §5 C14, §8"),
  "C15": ("oracle Activate / MissReport (exact second+nanosecond arithmetic), the pure feeds CheckMissReport / checkHavePrice kernels with all clocks symbolic, SubmitSignalPrices storing block time, and CalculatePrices deactivating only genuinely missed validators", "DESIGN.md §5 C15, §8"),
